@@ -114,6 +114,7 @@ enum Handle {
 }
 
 struct St {
+    phys: HashMap<String, std::path::PathBuf>,
     walks: HashMap<String, vfs::WalkDirIterator>,
     paths: HashMap<String, VfsPath>,
     handles: HashMap<String, Handle>,
@@ -347,6 +348,7 @@ fn exec(st: &mut St, t: &[&str]) -> String {
                     let _ = std::fs::remove_dir_all(&d);
                     std::fs::create_dir_all(&d).unwrap();
                     st.tmp.push(d.clone());
+                    st.phys.insert(t[1].to_string(), d.clone());
                     VfsPath::new(PhysicalFS::new(d))
                 }
                 #[cfg(feature = "embed")]
@@ -359,6 +361,14 @@ fn exec(st: &mut St, t: &[&str]) -> String {
                 x => panic!("SCRIPT: unknown fs kind {}", x),
             };
             st.paths.insert(name, root);
+            "ok".into()
+        }
+        "rawfile" => {
+            // directory content found on disk: a file created behind the library's back, name given as raw bytes
+            use std::os::unix::ffi::OsStrExt;
+            let dir = st.phys.get(t[1]).expect("SCRIPT: rawfile needs a phys root").clone();
+            let name = unhex(t[2]);
+            std::fs::write(dir.join(std::ffi::OsStr::from_bytes(&name)), b"x").unwrap();
             "ok".into()
         }
         "embedfile" => {
@@ -521,7 +531,7 @@ fn run_par(st: &St, sched: Vec<usize>, progs: Vec<Vec<(usize, String)>>) -> Vec<
             let paths = st.paths.clone();
             let ctls = st.ctls.clone();
             hs.push(scope.spawn(move || {
-                let mut local = St { walks: HashMap::new(), paths, handles: HashMap::new(), ctls, tmp: vec![] };
+                let mut local = St { phys: HashMap::new(), walks: HashMap::new(), paths, handles: HashMap::new(), ctls, tmp: vec![] };
                 let mut res = vec![];
                 vfs::verif_hooks::register(tid);
                 for (ln, line) in prog {
@@ -545,7 +555,7 @@ fn main() {
     std::panic::set_hook(Box::new(|_| {}));
     let args: Vec<String> = std::env::args().collect();
     let text = std::fs::read_to_string(&args[1]).expect("script file");
-    let mut st = St { walks: HashMap::new(), paths: HashMap::new(), handles: HashMap::new(), ctls: HashMap::new(), tmp: vec![] };
+    let mut st = St { phys: HashMap::new(), walks: HashMap::new(), paths: HashMap::new(), handles: HashMap::new(), ctls: HashMap::new(), tmp: vec![] };
     if cfg!(feature = "embed") {
         let _ = std::fs::remove_dir_all(EMBED_DIR);
         let _ = std::fs::create_dir_all(EMBED_DIR);
